@@ -23,6 +23,9 @@ def st_program(tier2=False, with_mem=True, domains=("sys",), max_sigs=6):
         for i in range(nin):
             sigs.append({"name": "i%d" % i, "w": draw(st.sampled_from([1, 2, 3, 4, 4, 5, 6, 8])), "signed": draw(st.booleans()), "role": "in"})
         doms = list(domains)
+        if draw(st.integers(0, 7)) == 0:
+            # an ordinary input that happens to be called like a clock-domain signal: the namespace must keep the two apart
+            sigs[draw(st.integers(0, nin - 1))]["name"] = draw(st.sampled_from(doms)) + draw(st.sampled_from(["_clk", "_clk", "_rst"]))
         for i in range(nint):
             w = draw(st.sampled_from([1, 2, 3, 4, 5, 6, 7, 8, 9, 9, 13, 17]))
             signed = draw(st.booleans())
